@@ -87,6 +87,10 @@ def mutations(rng, key: str, blob: bytes, legit: dict, conf: S.Conf, thorough: b
         yield "truncate", key, blob[:pos], sec
     for extra in (b"x", b"_", b":", b"0", b"_" + payload, b".", b"\n", payload):
         yield "extend", key, blob + extra, sec
+    # the signature kept, the payload replaced wholesale
+    for repl in (b"", b"123", b"0", b"1", b"N.", b"null", b"true", b"bytes:x", b"bytes:", b"\x80\x05N.", b"_", payload[::-1]):
+        if repl != payload:
+            yield "payload_replace", key, hdr + b"_" + repl, sec
     # multi-byte edits
     for _ in range(12 if not thorough else 200):
         m = bytearray(blob)
@@ -139,8 +143,8 @@ def mutations(rng, key: str, blob: bytes, legit: dict, conf: S.Conf, thorough: b
     yield "label", key, sig + b"_" + payload, sec                                    # label removed
     yield "label", key, b"sha512:" + sig + b"_" + payload, sec                       # unknown label
     yield "label", key, b":" + sig + b"_" + payload, sec                             # empty label
-    yield "label", key, label + b"::" + sig + b"_" + payload, sec                    # second ':' (D23)
-    yield "label", key, label + b":" + label + b":" + sig + b"_" + payload, sec
+    yield "insert", key, label + b"::" + sig + b"_" + payload, sec                   # second ':' (D23), label intact
+    yield "insert", key, label + b":" + label + b":" + sig + b"_" + payload, sec
     for other in S.DIGESTS:
         if other != conf.digest:
             yield "label", key, other.encode() + b":" + sig + b"_" + payload, sec    # relabelled, old signature
@@ -361,6 +365,12 @@ def gen_writes(rng, conf: S.Conf):
 
 def report(chk: Check, conf, writes, legit, item):
     r, kind, sig, text = item
+    # keep only the writes the attack derives from (same key, or a blob sharing the signature header)
+    h2 = split_blob(r["blob"])[0]
+    keep = [k for k, b in legit.items() if k == r["key"] or (h2 is not None and split_blob(b)[0] == h2)]
+    if keep:
+        writes = [(k, v) for k, v in writes if k in keep]
+        legit = {k: b for k, b in legit.items() if k in keep}
     replay = {
         "config": conf_to_json(conf),
         "writes": pairs_src(writes),
@@ -434,11 +444,13 @@ def run(chk: Check) -> int:
         scenarios.append(("corpus:" + name, conf, writes, attack))
         ncorpus += 1
     confs = c10_confs()
-    n = chk.budget(10, 120)
+    n = chk.budget(24, 84)
+    n_full = chk.budget(0, 9)          # scenarios swept with ALL 255 substitute bytes at every offset (thorough only)
     for i in range(n):
         conf = confs[i % len(confs)]
         scenarios.append((f"gen:{i}", conf, gen_writes(chk.rng, conf), None))
     exhaustive_blobs = 0
+    full_blobs = 0
     for origin, conf, writes, attack in scenarios:
         if attack is not None:
             if isinstance(attack, dict):
@@ -448,8 +460,10 @@ def run(chk: Check) -> int:
             legit, recs, nbp = run_scenario(conf, writes, chk.rng, chk.thorough, attacks=[attack])
         else:
             # quick: every offset of every blob, a handful of substitute bytes; thorough: all 255 substitutes
-            legit, recs, nbp = run_scenario(conf, writes, chk.rng, chk.thorough)
+            full = int(origin.split(":")[1]) < n_full
+            legit, recs, nbp = run_scenario(conf, writes, chk.rng, full)
             exhaustive_blobs += len(legit)
+            full_blobs += len(legit) if full else 0
         items = judge(conf, legit, recs, ids, stats, nbp)
         evaluations += len(recs)
         conf_hist[conf.name()] = conf_hist.get(conf.name(), 0) + len(recs)
@@ -460,7 +474,7 @@ def run(chk: Check) -> int:
             samples.append({"config": conf.name(), "writes": pairs_src(writes)[:200], "attack_class": r["class"], "read_key": r["key"],
                             "blob": r["blob"].hex()[:160], "observed_get": repr(r["get"])[:80]})
         seen_sig = set()
-        for it in items:
+        for it in sorted(items, key=lambda it: it[1] != "spec"):
             r, kind, sig, text = it
             if (kind, sig) in seen_sig:
                 continue
@@ -490,6 +504,8 @@ def run(chk: Check) -> int:
         "corpus_cases": ncorpus,
         "scenarios": len(scenarios),
         "blobs_swept_at_every_offset": exhaustive_blobs,
+        "blobs_swept_with_all_255_substitutes_at_every_offset": full_blobs,
+        "exhaustive": False,
         "configurations": conf_hist,
         "interesting_states_cases": stats,
         "trusted_base": TRUSTED,
